@@ -6,12 +6,11 @@
 (* the scenario as one JSON line ("SCN").                                  *)
 (*                                                                         *)
 (* A scenario: 1..MaxBr branches, each existing already or not, all staged *)
-(* in one transaction; then MinLen..MaxLen operations, each CommitTx or     *)
-(* Discard                                                                 *)
-(* (so: re-run after a failure, commit again, discard after commit,        *)
-(* discard then commit, ...), MinFail..MaxFail of them with an injected    *)
-(* failure ("err") or crash ("crashed") at the k-th store operation of     *)
-(* that operation, for every k.                                            *)
+(* in one transaction; then MinLen..MaxLen operations, each CommitTx or    *)
+(* Discard (so: re-run after a failure, commit again, discard after        *)
+(* commit, discard then commit, ...), MinFail..MaxFail of them with an     *)
+(* injected failure ("err") or crash ("crashed") at the k-th store         *)
+(* operation of that operation, for every k.                               *)
 (*                                                                         *)
 (* After every operation the harness observes, per branch, what the        *)
 (* statement speaks of (all relative to the state before the first         *)
@@ -22,8 +21,8 @@
 (*   nlog   entries of the branch's log carrying the transaction           *)
 (*   nobj   commit objects made for this branch by the transaction         *)
 (* and the call's result ("ok", "err", or "crashed": it never returned),   *)
-(* the transaction's status and (after a successful                        *)
-(* discard only: "none", otherwise "any") whether staged refs are left.    *)
+(* the transaction's status and (after a successful discard only: "none",  *)
+(* otherwise "any") whether staged refs are left.                          *)
 (*                                                                         *)
 (* Exported sets of observation sequences:                                 *)
 (*   allowed  the statement-level oracle (Txn!ExecAny: a failure stops the *)
